@@ -20,5 +20,5 @@ int __wrap_pthread_mutex_trylock(pthread_mutex_t * m) { return __real_pthread_mu
 }
 namespace sim {
 void sched_point(int, i64) {}
-void suite_process_init() {}
+
 }
